@@ -41,8 +41,10 @@ Record variant := mkVariant {
   fix_shutdown_counts_closed : bool }.
 Definition shipped : variant := mkVariant false false.
 Definition fixed : variant := mkVariant true true.
-(* The variant /repo is tied to.  Flip to [fixed] when proposed_fixes/C15-*.diff are applied. *)
-Definition current : variant := shipped.
+(* The variant /repo is tied to: both repairs are in /repo (e25b98f, 58f5da3).  For the shutdown repair this is no longer
+   only observed at run time: Mgr/MgrTie.v proves the code translated from /repo equal to [mgr_cb v] for every variant v with
+   [fix_shutdown_counts_closed v = true], and shows by example that it differs from [shipped]. *)
+Definition current : variant := fixed.
 
 Inductive rc := RcSuccess | RcError | RcInvalidParam.   (* 0, -1, -2 *)
 
